@@ -167,6 +167,10 @@ class Core:
             return False
         if c.get_id() in st.facts or cond.get_id() in st.facts:
             return True
+        if z3.is_and(c) and all(self.known(st, x) is True for x in c.children()):
+            return True
+        if z3.is_or(c) and len(c.children()) == 1:
+            return self.known(st, c.children()[0])
         n = z3.simplify(z3.Not(c))
         if n.get_id() in st.facts:
             return False
@@ -200,8 +204,8 @@ class Core:
             if not (m & HEAP_IMPLICIT):
                 keep.append(p)
                 continue
-            if z3.is_app(p) and p.decl().kind() == z3.Z3_OP_UNINTERPRETED and p.decl().name() in preserves \
-                    and not (m - {p.decl().name()}) & HEAP_IMPLICIT:
+            if not ((m & HEAP_IMPLICIT) - set(preserves)) and not _has_quant(p):
+                # quantifier-free facts that speak only about predicates the callee preserves stay true
                 keep.append(p)
                 continue
             changed = True
